@@ -1902,6 +1902,8 @@ struct Engine
             return x.val;
         else if constexpr (std::is_same_v<T, Amp>)
             return x.v;
+        else if constexpr (std::is_same_v<T, Mva>)
+            return x.val;
         else if constexpr (std::is_same_v<T, Str>)
             return static_cast<long>(x.size()) + (x.empty() ? 0 : x[0]);
         else if constexpr (std::is_same_v<T, Big32>)
